@@ -25,6 +25,34 @@ if REPO not in sys.path:
 os.environ.setdefault('PYTHONHASHSEED', '0')
 
 
+class Hang(BaseException):
+    """the code under test did not return (raised by the watchdog timer)"""
+
+
+CASE_DEADLINE = int(os.environ.get('VERIF_CASE_DEADLINE', '60'))
+
+
+def _on_alarm(signum, frame):
+    raise Hang()
+
+
+def arm_watchdog():
+    import signal
+    try:
+        signal.signal(signal.SIGALRM, _on_alarm)
+        signal.alarm(CASE_DEADLINE)
+    except ValueError:      # not in the main thread
+        pass
+
+
+def disarm_watchdog():
+    import signal
+    try:
+        signal.alarm(0)
+    except ValueError:
+        pass
+
+
 class MachineryError(Exception):
     """the machinery itself is broken (exit 2, never a VIOLATION)"""
 
@@ -239,6 +267,11 @@ class Report(object):
         self.dist[key] = self.dist.get(key, 0) + n
 
     def case(self, canon, nontrivial=True, sample=None):
+        # watchdog: the code under test must come back; a case that does not finish within CASE_DEADLINE seconds
+        # is reported as a hang (see `check`), with this case as the replay
+        self.last_case = canon
+        self.last_sample = sample
+        arm_watchdog()
         self.evaluations += 1
         if nontrivial:
             self.distinct.add(hashlib.sha1(canon.encode()).hexdigest()[:16])
@@ -262,6 +295,7 @@ class Report(object):
 
     # -- finish
     def finish(self):
+        disarm_watchdog()
         wall = time.time() - self.t0
         os.makedirs(os.path.join(OUT, 'evidence'), exist_ok=True)
         os.makedirs(os.path.join(OUT, 'replays'), exist_ok=True)
